@@ -35,7 +35,7 @@ ASSUMPTIONS = E1_ASSUMPTIONS + [
     "bracket comment or doccomment (which leaves it unterminated)",
     "an unterminated bracket *argument* is not one of the families the statement names: such cases are discarded",
     "the fault-free configuration (same worlds, no corruption) must exit 0 and write the page"]
-PROBES = ["settings_profile_used", "module_without_any_doccomment", "read_error_on_input", "family_unterminated-string", "family_unterminated-bracket-comment", "family_invalid-escape",
+PROBES = ["stale_page_newer_than_source", "settings_profile_used", "module_without_any_doccomment", "read_error_on_input", "family_unterminated-string", "family_unterminated-bracket-comment", "family_invalid-escape",
           "family_unbalanced-paren", "family_stray-text", "mode_o", "mode_stdout", "in_tree", "stale_page_present",
           "pair", "fault_between_commands", "fault_inside_arguments", "rest_of_file_swallowed_candidate"]
 
@@ -78,12 +78,14 @@ def strategy(cfg):
                         "zzz.cmake": cmakegen.render({"mod": None, "cmds": [{"k": 2, "doc": 1, "v": 0, "n": 0}]}, "s1").text}
         return {"text": m.text, "tokens": [[k, t] for k, t in m.tokens],
                 "setting": {"mode": mode, "in_tree": in_tree, "stale": mode == "o" and draw(st.booleans()),
+                            # clock skew: the (faulty) source carries an old timestamp, the stale page looks newer
+                            "skew": draw(st.booleans()),
                             "undoc": (None if not profile else
                                       ([False] * 10 if profile == "undoc_off" else [draw(st.booleans()) for _ in range(10)]))},
                 "siblings": siblings,
                 "plan": {"kinds": cfg["kinds"], "max_faults": cfg["max_faults"], "phase": draw(st.integers(0, 6)),
                          "pairs": cfg["pairs"], "pair_seed": draw(st.integers(0, 10 ** 6)),
-                         "read_error": draw(st.sampled_from([None, None, "EIO", "EACCES"]))}}
+                         "read_error": draw(st.sampled_from([None, None, "EIO", "EACCES", "READ_EIO", "READ_SHORT"]))}}
     return world()
 
 
@@ -223,9 +225,12 @@ def evaluate(spec, ctx):
         if setting["in_tree"]:
             ctx.probes["in_tree"] += 1
 
-        def run(text):
+        def run(text, old_timestamp=False):
             with open(src, "w") as f:
                 f.write(text)
+            if old_timestamp:
+                st_ = os.stat(src)
+                os.utime(src, (st_.st_atime - 86400 * 30, st_.st_mtime - 86400 * 30))
             res = core.run_call(base, call, snap=False)
             ctx.note_call(res)
             return res
@@ -250,8 +255,13 @@ def evaluate(spec, ctx):
                 os.remove(page)
             with open(src, "w") as f:
                 f.write(spec["text"])
-            res = core.run_call(base, dict(call, faults=[{"seam": "open_r", "match": "proj/" + name,
-                                                          "errno": spec["plan"]["read_error"]}]), snap=False)
+            kind = spec["plan"]["read_error"]
+            if kind.startswith("READ_"):
+                fl = {"seam": "read", "match": "proj/" + name, "errno": "EIO",
+                      "how": "at-start" if kind == "READ_EIO" else "after-prefix"}
+            else:
+                fl = {"seam": "open_r", "match": "proj/" + name, "errno": kind}
+            res = core.run_call(base, dict(call, faults=[fl]), snap=False)
             ctx.note_call(res)
             ctx.probes["read_error_on_input"] += 1
             ctx.note_case(core.spec_digest([spec["text"], mode, "read_error", spec["plan"]["read_error"]]), True)
@@ -287,7 +297,9 @@ def evaluate(spec, ctx):
                         f.write(good_page)
                 elif os.path.exists(page):
                     os.remove(page)
-            res = run(bad)
+            res = run(bad, old_timestamp=bool(setting.get("skew")))
+            if setting.get("skew") and setting["stale"] and mode == "o":
+                ctx.probes["stale_page_newer_than_source"] += 1
             ctx.note_case(core.spec_digest([bad, mode, setting["in_tree"], setting["stale"]]), True)
             kinds = "+".join(sorted(f["kind"] for f in fs))
             narrow = dict(spec, plan={"explicit": [fs]})
